@@ -680,4 +680,25 @@ theorem mem_asDirhtml {parts : List (List Char)} {s : List Char} {c : Char}
       · exact mem_withoutKnownSuffix hw hc
       · simp at hc; exact Or.inl hc
 
+/-! ### lookups in a loaded inventory -/
+
+theorem lookup_of_mem_nodup (l : Dict) (k : List Char) (e : Entry) (hm : (k, e) ∈ l)
+    (hn : (l.map Prod.fst).Nodup) : l.lookup k = some e := by
+  induction l with
+  | nil => cases hm
+  | cons a t ih =>
+    obtain ⟨k', e'⟩ := a
+    simp only [List.map_cons, List.nodup_cons] at hn
+    rw [List.lookup_cons]
+    rcases List.mem_cons.1 hm with h | h
+    · simp only [Prod.mk.injEq] at h
+      simp [h.1, h.2]
+    · have hne : (k == k') = false := by
+        cases hh : k == k'
+        · rfl
+        · simp at hh
+          exact absurd (List.mem_map.2 ⟨(k, e), h, rfl⟩) (hh ▸ hn.1)
+      simp only [hne]
+      exact ih h hn.2
+
 end SnootyVerif.Inventory
